@@ -119,7 +119,7 @@ def rel_work(rel, tier, rng, viols, keys, counters):
             add(viols, 'C09|%s|%s' % (tag, clause), '%s.validate(%r) -> %r but the constituents give %r %s' % (wrapper, x, got, expected, extra),
                 {'rel': rel, 'wrapper': wrapper, 'x': x})
 
-    n = 5 if tier == 'quick' else 30
+    n = 5 if tier == 'quick' else 150
     if rel.startswith('eu.vat:'):
         cc = rel.split(':')[1]
         from stdnum.eu import vat as euvat
